@@ -24,9 +24,10 @@ ASSUMPTIONS = [
 ]
 REQUIRED = {"steps.call_log": {"quick": 2500, "thorough": 100000}, "steps.status_mapping": {"quick": 4000, "thorough": 200000},
             "steps.dry_run_calls_nothing": {"quick": 300, "thorough": 10000}, "history.retry_final_status": {"quick": 100, "thorough": 4000},
-            "history.second_run_status": {"quick": 100, "thorough": 4000}, "steprun.return_iff_not_failed": {"quick": 5000, "thorough": 200000}}
+            "history.second_run_status": {"quick": 100, "thorough": 4000}, "steprun.return_iff_not_failed": {"quick": 5000, "thorough": 200000},
+            "steps.subprocess_call_log": {"quick": 20, "thorough": 200}}
 REQUIRED_SEEN = {"step_status": ["passed", "failed", "error", "pending", "pending_warn", "undefined", "skipped", "untested"],
-                 "background_step_with_placeholder": ["feature"], "autoretry_patch_style": ["rows", "as_listed"],
+                 "background_step_with_placeholder": ["feature"], "step_skips_rest_of": ["feature", "rule"], "autoretry_patch_style": ["rows", "as_listed"],
                  "error_exception_class": ["RuntimeError", "ValueError", "KeyError", "NotImplementedError", "OSError", "LookupError",
                                            "TypeError", "ZeroDivisionError", "CustomError", "AttributeError"]}
 EXHAUSTIVE = True
@@ -269,10 +270,32 @@ def run(spec, mon):
         else:
             # backgrounds at both levels, outlines inside rules, examples placeholders inside background steps
             case = RB.gen_case(rng, p_names=0.1, gen={"p_bg_param": 0.4, "p_background": 0.7, "p_rule_background": 0.6,
-                                                      "p_outline": 0.45} if i % 3 == 1 else {"p_bg_param": 0.3})
+                                                      "p_outline": 0.45} if i % 3 == 1 else
+                               {"p_bg_param": 0.3, "outcomes": OUTCOMES + ["skip_feature", "skip_rule"],
+                                "weights": {"skip_feature": 3.0, "skip_rule": 2.0}, "p_nonpass": 0.25})
+            for oc in ("skip_feature", "skip_rule"):
+                if oc in case["program"]["outcomes"].values():
+                    mon.seen("step_skips_rest_of", oc.split("_")[1])
         if "<x>" in repr([f.get("background") for f in case["program"]["features"]]):
             mon.seen("background_step_with_placeholder", "feature")
         run_one(lab, mon, case, sample=(i == 0 and shard == 0))
+    # ---- the same through `python -m behave` (step modules loaded from a steps directory with two modules) -------
+    from ..lab.subproc import Project
+    for i in range(2 if tier == "quick" else 20):
+        case = RB.gen_case(rng, p_dry=0.1, gen={"p_bg_param": 0.3})
+        pred = runmodel.predict(case["program"], case["cfg"])
+        proj = Project(case["program"], {})
+        try:
+            res = proj.run(case["args"] + ["-f", "plain"])
+        finally:
+            proj.close()
+        mon.case(("sub", RB.strip_case(case)), True)
+        if res.get("timeout"):
+            mon.note("subprocess watchdog fired (inconclusive case)")
+            continue
+        calls = [(e[1], e[2]) for e in res["events"] if e[0] == "step"]
+        mon.check("steps.subprocess_call_log", calls == pred.calls,
+                  lambda: RB.witness(case, got=calls, want=pred.calls, stdout=res["stdout"][-800:], stderr=res["stderr"][-400:]))
     for i in range(12 if tier == "quick" else 500):
         history_retry(lab, mon, rng)
         history_second_run(lab, mon, rng)
